@@ -405,7 +405,9 @@ def run(ctx):
         if "ape-" in label:
             ctx.hist["ape-buffered-like:" + ("same" if realb == real else "differs")] += 1
         if realb != real and realb in ("ok", "err:mutagen"):
-            ctx.notes.append("as-real-file differs: %s %s: %s vs BytesIO %s (%s)" % (target, label, realb, real, str(r)[:80] if k != "ok" else ""))
+            # path and stream must behave the same (clean for all classes since apev2._seek_back)
+            ctx.violation("ftype:%s:differs-as-real-file" % target, "%s(fileobj) on an object with the semantics of a file opened by name: %s; "
+                          "on io.BytesIO: %s (%s) [%s]" % (target, realb, real, str(r)[:80] if k != "ok" else (str(rb)[:80] if kb == "exc" else ""), label), case)
         if realb not in ("ok", "err:mutagen"):
             ctx.violation("ftype:%s:as-real-file:%s" % (target, realb.split(":")[-1]), "%s(fileobj) on an object with the semantics of a file opened by "
                           "name: %s (%s); on io.BytesIO: %s" % (target, realb, str(rb)[:60] if kb == "exc" else "", real), case)
